@@ -1241,6 +1241,10 @@ func readOnlyUses(c *Ctx, root ssa.Value) string {
 				}
 			case *ssa.UnOp:
 				if u.Op == token.MUL {
+					// a scalar copy (number, bool, string) read out of the member can go anywhere
+					if _, isBasic := u.Type().Underlying().(*types.Basic); isBasic {
+						continue
+					}
 					visit(u, false, depth+1)
 				}
 			case *ssa.IndexAddr:
